@@ -10,7 +10,7 @@ Grammar (S scalar, V vector, M matrix):
   S: var(name) elem(V,i) melem(M,i,j) const(kind,value) param(name) bin(op,S,S) un(f,S)
      vsum(V) vector_sum(V) dot(V,V,style) dotself(V,style) lincomb(coeffs,V,style) norm(V,ord,style)
      quad(V,Q,style) msum(M) fro(M) trace(M,style)
-  V: vvar(name) slice(V,a,b,s) row(M,i,a,b,s) col(M,a,b,s,j) diag(M,style)
+  V: view(key) [= env["views"][key], built once] vvar(name) slice(V,a,b,s) row(M,i,a,b,s) col(M,a,b,s,j) diag(M,style)
      vbin(op,V,operand,side) vneg(V) vfn(f,V) vpow(V,k) matvec(A,V,style) mvarvec(M,V) vexpr([S])
   M: mvar(name) T(M) msub(M,[a,b,s],[a,b,s]) mbin(op,M,operand,side) mneg(M)
   operand (vector): ["V",V] | ["num",kind,value] | ["arr",[..]] | ["list",[..]]
@@ -22,7 +22,7 @@ import numpy as np
 
 S_KINDS = {"var", "elem", "melem", "const", "param", "bin", "un", "vsum", "vector_sum", "dot", "dotself",
            "lincomb", "norm", "quad", "msum", "fro", "trace"}
-V_KINDS = {"vvar", "slice", "row", "col", "diag", "vbin", "vneg", "vfn", "vpow", "matvec",
+V_KINDS = {"view", "vvar", "slice", "row", "col", "diag", "vbin", "vneg", "vfn", "vpow", "matvec",
            "mvarvec", "vexpr"}
 M_KINDS = {"mvar", "T", "msub", "mbin", "mneg"}
 
@@ -50,6 +50,8 @@ def env_mat(env, name):
 
 def vsize(r, env):
     k = r[0]
+    if k == "view":
+        return vsize(env["views"][r[1]], env)
     if k == "vvar":
         return env_vec(env, r[1])["n"]
     if k == "slice":
@@ -77,7 +79,7 @@ def vsize(r, env):
 
 def vclass(r):
     k = r[0]
-    if k in ("vvar", "slice", "row", "col", "diag"):
+    if k in ("view", "vvar", "slice", "row", "col", "diag"):
         return "var"
     if k in ("vbin", "vneg", "matvec", "mvarvec", "vexpr"):
         return "expr"
@@ -249,6 +251,9 @@ class ElemAlg:
         return self._fold(m[i][i] for i in range(len(m)))
 
     # ---- vectors
+    def n_view(self, key):
+        return self.ev(self.env["views"][key])
+
     def n_vvar(self, name):
         n = env_vec(self.env, name)["n"]
         return [self.sc.var(f"{name}[{i}]") for i in range(n)]
@@ -523,6 +528,14 @@ class BuildAlg:
         return m.trace() if style == "method" else self.ox.trace(m)
 
     # ---- vectors
+    def n_view(self, key):
+        # one object per named view (object identity matters to optyx's shortcuts)
+        if not hasattr(self, "_views"):
+            self._views = {}
+        if key not in self._views:
+            self._views[key] = self.ev(self.env["views"][key])
+        return self._views[key]
+
     def n_vvar(self, name):
         return self.vectors[name]
 
